@@ -34,6 +34,11 @@ def record(args):
             inp, r = cases.build(dassh, case, str(d))
             ductobs.tag_walls(r, case)
             rec.watch_reactor(r)
+            dm = {t.get('duct_material') for t in case['types'].values()}
+            if len(dm) == 1:
+                spec = case.get('materials', {}).get(next(iter(dm)), {})
+                if '_table' in spec:
+                    rec.duct_table = spec['_table']
             with rec:
                 with drive.Recorder(dassh, r, []) as rr:
                     rr.sweep(max_steps=max_steps)
@@ -171,6 +176,26 @@ def run(tier, res, replay=None):
             [flow_for(DS, 0.03)], gap_model=gm,
             bypass_fraction=(0.05 if gm == 'flow' else 0.0),
             coolant='sodium', ncell=2), None))
+    # the duct material given as a table whose conductivity is tabulated on
+    # a finer temperature grid than its other properties (no entry = 0)
+    tt = bundle_type(2)
+    tt['duct_material'] = 'walltab'
+    ctab = make_core(rng, {'a1': tt}, [(1, 1, 'a1')], [flow_for(tt, 0.06)],
+                     gap_model='flow', bypass_fraction=0.05, ncell=2,
+                     comps=('pins', 'duct', 'cool'))
+    Ts = [300.0, 500.0, 600.0, 650.0, 700.0, 750.0, 800.0, 900.0, 1100.0]
+    ctab['materials']['walltab'] = {'_table': {
+        'temperature': Ts,
+        'density': [7900.0, 7800.0, 0.0, 0.0, 7700.0, 0.0, 0.0, 7600.0,
+                    7500.0],
+        'heat_capacity': [500.0, 540.0, 0.0, 0.0, 570.0, 0.0, 0.0, 600.0,
+                          630.0],
+        'thermal_conductivity': [14.0, 17.5, 21.0, 16.0, 23.5, 19.0, 25.5,
+                                 24.0, 27.0]}}
+    for p_ in ctab['power'].values():
+        p_['duct'] = [[[6.0 * x for x in co] for co in cell]
+                      for cell in p_['duct']]
+    lab.append(('duct-material-table-uneven-columns', ctab, None))
     cl = scenarios.core_lattice(rng, tier)
     lab += [(l, c, 40 if tier == 'quick' else None) for l, c in
             (cl[:3] if tier == 'quick' else cl)]
